@@ -65,7 +65,7 @@ SPEC = {
     "oracle": oracle,
     "corpus_opts": {"Repeat": 2},
     "stages": [("B", lambda c, o, rng: S.stageB_case(o, bool(c.get("Weight"))), S.stageB_v, 6, None),
-               ("R", lambda c, o, rng: S.stageB_case(o, bool(c.get("Weight"))), resultant_v, 10, 30)],
+               ("R", lambda c, o, rng: S.stageB_case(o, bool(c.get("Weight"))), resultant_v, 3, 30)],
     "nontrivial": lambda c, o: any((b.get("DL") or b.get("CL")) for b in o["Bars"]),
     "rule": "look-alike loads first (a user load equal to the own-weight load with -w, exact duplicates, equal loads on two bars); then as C15, plus 1-3 preprocessing calls on the same parsed structure; non-trivial iff some bar carries a load; every case goes through StructureModel, the exact resultant oracle "
             "(sum of node torsors moved to the bar start vs closed-form resultant of the input loads; call k = call 1; input unchanged), the Coq evaluation of preprocess_bar (stage B) and, for 30 cases, "
